@@ -266,3 +266,20 @@ Example C17_error_nonvacuous :
   load_lines ["NAME t"; "ROWS"; " N obj"; " L r1"; "COLUMNS"; " x obj 1 nosuch 2"; "ENDATA"]
   = Err (EUnknownRowName "nosuch").
 Proof. vm_compute. reflexivity. Qed.
+
+
+(* ---------------------------------------------------------------------------------------------
+   EVERY instance the reader returns is VALID in the sense of C08 (LoadWf.v): distinct variable ids,
+   distinct constraint ids, every used id defined.  On the pinned tree this was FALSE: parse_id_tag
+   accepted `OMMX_VAR_01` / `OMMX_CONSTR_+7`, so two distinct names could recover the same id (the
+   texts of mps_dup_vars_regression / mps_dup_cons_regression loaded with ids [1;1] / [7;7] and failed
+   Instance::validate); repaired in /repo by "fix: MPS id tags must be the canonical decimal rendering". *)
+Require Import Ommx.LoadWf.
+Theorem C17_loaded_instance_valid : forall lines R, load_lines lines = Ok R ->
+  MpsWf.inst_wf R /\ Validate.validate (MpsWf.to_instance R) = true.
+Proof. intros lines R H. split; [exact (MpsWf.mps_load_wf_all lines R H)|exact (MpsWf.mps_load_valid_all lines R H)]. Qed.
+Print Assumptions C17_loaded_instance_valid.
+Check MpsWf.mps_dup_vars_regression.
+Check MpsWf.mps_dup_cons_regression.
+Check MpsWf.mps_tag_examples.
+Print Assumptions MpsWf.mps_dup_vars_regression.
